@@ -66,6 +66,9 @@ def main():
         return
     from oracle import native_calls as NC
     method = qual.split('.')[-1]
+    if qual.startswith('SgzCropper.'):
+        print(json.dumps(replay_crop(model, shape, rate, b), default=str))
+        return
     if method == 'make_header':
         print(json.dumps(replay_writer(model, rate, b, two_d, var), default=str))
         return
@@ -220,6 +223,72 @@ def replay_axes_reader(model):
     finally:
         shutil.rmtree(d, ignore_errors=True)
     return {'reproduced': bool(probs), 'detail': probs or 'reader axes match the header', 'case': 'oracle-written 5x6x7 files, steps (3,-2) and (1,7)'}
+
+
+def replay_crop(model, shape, rate, b):
+    """oracle-written source -> real SgzCropper (after a single-field header query, so caches are filled out of table
+    order) -> cropped file checked against the specification and the source restricted to the widened box"""
+    import tempfile, shutil
+    import numpy as np
+    from oracle import specsgz as S
+    from seismic_zfp.cropping import SgzCropper
+    shape = [min(x, 40) if i < 2 else min(x, 3 * b[2]) for i, x in enumerate(shape)]
+    rng = np.random.default_rng(1)
+    cube = rng.standard_normal(shape).astype(np.float32)
+    il = list(range(-3, -3 + shape[0])); xl = list(range(50, 50 + 3 * shape[1], 3))
+    n = shape[0] * shape[1]
+    hdr = {189: np.repeat(np.array(il), shape[1]).astype(np.int32), 193: np.tile(np.array(xl), shape[0]).astype(np.int32), 1: np.arange(n, dtype=np.int32)}
+    names = ('iline_index_range', 'xline_index_range', 'zslices_index_range')
+    box = []
+    for nm in names:
+        lo, hi = ival(model, nm + '[0]'), ival(model, nm + '[1]')
+        box.append(None if lo is None or hi is None else (lo, hi))
+    d = tempfile.mkdtemp(prefix='verif_c_')
+    probs = []
+    try:
+        for ver in ((0, 2, 5, False), (0, 1, 9, False)):
+            buf = S.encode(cube, rate, tuple(b), ilines=il, xlines=xl, header_arrays=hdr, version=ver)
+            src, out = d + '/s.sgz', d + '/c.sgz'
+            open(src, 'wb').write(buf)
+            dec = S.decode(buf)
+            rg = [bx if bx is not None else (0, shape[k]) for k, bx in enumerate(box)]
+            valid = any(bx is not None for bx in box) and all(0 <= r[0] < r[1] <= shape[k] for k, r in enumerate(rg))
+            if os.path.exists(out):
+                os.remove(out)
+            try:
+                with SgzCropper(src) as c:
+                    c.get_tracefield_values(193)
+                    c.clear_variant_headers() if False else None
+                    c.write_cropped_file_by_indexes(out, *box)
+                raised = None
+            except IndexError:
+                raised = 'IndexError'
+            except Exception as e:
+                raised = type(e).__name__
+            if not valid:
+                if raised != 'IndexError' or os.path.exists(out):
+                    probs.append(f'version {ver[:3]}: invalid request {box} on a {shape} cube: raised {raised}, output file exists: {os.path.exists(out)}')
+                continue
+            if raised:
+                probs.append(f'version {ver[:3]}: valid request {box} raised {raised}')
+                continue
+            cb = open(out, 'rb').read()
+            probs += [f'version {ver[:3]}: ' + x for x in S.check_conf(cb)]
+            cd = S.decode(cb)
+            lo = [bb * (r[0] // bb) for r, bb in zip(rg, b)]
+            hi = [min(n_, bb * -(-r[1] // bb)) for r, bb, n_ in zip(rg, b, shape)]
+            want = dec['volume'][lo[0]:hi[0], lo[1]:hi[1], lo[2]:hi[2]]
+            if cd['volume'].shape != want.shape or not np.array_equal(cd['volume'], want):
+                probs.append(f'version {ver[:3]}: decoded volume of the cropped file differs from the source box {lo}..{hi}')
+            for k in hdr:
+                if k not in cd['arrays'] or not np.array_equal(cd['arrays'][k].reshape(want.shape[:2]), hdr[k].reshape(shape[:2])[lo[0]:hi[0], lo[1]:hi[1]]):
+                    probs.append(f'version {ver[:3]}: header array {k} of the cropped file is not the source array restricted to the box')
+    except Exception as e:
+        probs.append(f'{type(e).__name__}: {e}')
+    finally:
+        shutil.rmtree(d, ignore_errors=True)
+    return {'reproduced': bool(probs), 'detail': probs[:6] or 'cropped files conform and match the source box',
+            'case': {'shape': shape, 'rate': rate, 'blockshape': b, 'box': box, 'history': 'get_tracefield_values(193) before the crop'}}
 
 
 def loader_cases(method, model, shape, rate, b, two_d):
